@@ -31,6 +31,7 @@ PROPS = {
     },
     'C05': {
         'streams': [{'name': 'crash', 'quick': 3, 'thorough': 20},
+                    {'name': 'fault', 'quick': 1, 'thorough': 6, 'args': ['--backend', 'all']},
                     {'name': 'hist_reopen', 'cmd': 'hist', 'quick': 30, 'thorough': 300, 'args': ['--backend', 'bbolt,badgerdisk', '--focus', 'reopen']}],
         'assumptions': ['the store commit itself is atomic and durable (bbolt meta-page swap + fsync, badger WAL): premise, not provable here; fsync, power loss and torn pages are outside the model and outside what a process kill exercises'],
     },
@@ -72,11 +73,11 @@ PROPS = {
         'assumptions': ['field names free of ";"'],
     },
     'C15': {
-        'streams': [{'name': 'cursor', 'quick': 40, 'thorough': 600}, {'name': 'hist_be', 'cmd': 'hist', 'quick': 40, 'thorough': 400, 'args': ['--backend', 'bbolt,badger,badgerdisk']}],
+        'streams': [{'name': 'cursor', 'quick': 40, 'thorough': 600}, {'name': 'scale', 'quick': 1, 'thorough': 2, 'args': ['--backend', 'bbolt,badger,badgerdisk']}, {'name': 'hist_be', 'cmd': 'hist', 'quick': 40, 'thorough': 400, 'args': ['--backend', 'bbolt,badger,badgerdisk']}],
         'assumptions': ['the libraries behind the adapters (bbolt Cursor.Seek/Next/Prev/Last, badger Iterator) are modelled by their documented cursor semantics; the empty seek key is excluded (badger documents it as rewind; clover never seeks it)'],
     },
     'C16': {
-        'streams': [{'name': 'c16', 'quick': 400, 'thorough': 6000}],
+        'streams': [{'name': 'c16', 'quick': 400, 'thorough': 6000}, HIST('hist_index', 60, 600, ['--focus', 'index'])],
         'assumptions': ['literal-kind invariance under cmp_dom3 (no NaN; big integers not mixed with floats)'],
     },
     'C17': {
